@@ -156,6 +156,9 @@ func propC15(c *Ctx, r *Report) {
 	c.runHardened(r, "hardened.binary", []string{"spirv/internal/codegen", "hlsl/internal/codegen", "msl/internal/codegen"}, hardenedBinary, "BinaryOperator")
 	r.Clauses = append(r.Clauses, "block recursion (E3) of the SPIR-V statement walkers: the scan that decides which workgroup variables the zero-initialisation polyfill covers descends into every nested block")
 	c.runBlockWalkers(r, "operands", "spirv", inPkgs("spirv/internal/codegen"), nil)
+	r.Clauses = append(r.Clauses, indexLenClause)
+	c.runIndexLen(r, "shape.indexlen", inPkgs("msl", "hlsl", "glsl", "spirv"))
+	r.floor("shape.indexlen", 5)
 	r.floor("spirv.Block.walkers", 3)
 	r.floor("routing.index-sites", 3)
 	r.floor("hardened.ops", 6)
